@@ -73,6 +73,8 @@ Definition end_driver (how : dstatus) (s : st) : st :=
   let s3 := fold_left (fun s o => updop o (fun c => close_chan (drop_reply c)) s) (opq s2) s2 in
   s3 <| rmap := [] |> <| smap := [] |> <| opq := [] |> <| scrubq := [] |> <| drv := how |>.
 
+Definition abandon_hit (s0 : st) (t : Z) : bool :=
+  match alookup t (rmap s0), alookup t (smap s0) with None, None => false | _, _ => true end.
 Definition is_running (s : st) : bool := match drv s with Running => true | _ => false end.
 Definition waiting (c : cop) : bool := match o_status c with CWait => true | _ => false end.
 
@@ -97,7 +99,7 @@ Definition step (s : st) (e : ev) : st :=
                     (match k with KSearch _ => true | _ => false end) (match k with KSearch _ => true | _ => false end) [] None tmo None in
       let s1 := s <| last := mid |> <| inuse ::= cons mid |> in
       if is_running s then s1 <| ops ::= fun l => l ++ [o] |> <| opq ::= fun q => q ++ [length (ops s)] |>
-      else s1 <| ops ::= fun l => l ++ [o <| o_status := CErr EOpSend |> <| o_reply := OsClosed |> <| o_rx := false |> <| o_chan := false |>] |>
+      else s1 <| ops ::= fun l => l ++ [o <| o_status := match k with KSearch _ => SStartErr EOpSend | _ => CErr EOpSend end |> <| o_reply := OsClosed |> <| o_rx := false |> <| o_chan := false |>] |>
     | _ => s end
   | DrvOp =>
     if negb (is_running s) then s else
@@ -117,7 +119,8 @@ Definition step (s : st) (e : ev) : st :=
           let s1 := drop_entry (rmap s0) t drop_reply s0 <| rmap ::= aremove t |> in
           let s2 := drop_entry (smap s1) t close_chan s1 <| smap ::= aremove t |> in
           let s3 := s2 <| inuse ::= rem mid |> in
-          let s4 := if fix9 (fx s) then s3 <| inuse ::= rem t |> else s3 in
+          (* repair F9: the target's id is released only when a routing entry for it was actually removed *)
+          let s4 := if fix9 (fx s) && abandon_hit s0 t then s3 <| inuse ::= rem t |> else s3 in
           updop o (fill_reply None) s4
       | KUnbind =>
           let s1 := updop o (fill_reply None) s0 in
